@@ -25,6 +25,7 @@ package redact
 // bad-verb report are not part of the exact checks.
 
 import (
+	"math"
 	"bytes"
 	"encoding/json"
 	"errors"
@@ -322,6 +323,11 @@ type c17Shape struct {
 	text  func(ns []string) string
 }
 
+// a float key type that is a SafeValue, so that the key of the NaN shape renders outside envelopes like the other keys
+type c17SafeFloat float64
+
+func (c17SafeFloat) SafeValue() {}
+
 var c17BaseShapes = []c17Shape{
 	{"top", 1, true, false, func(es []error) interface{} { return es[0] }, func(ns []string) string { return ns[0] }},
 	{"field", 1, false, false, func(es []error) interface{} { return c17HoldErr{es[0]} }, func(ns []string) string { return "c17HoldErr{Err: " + ns[0] + "}" }},
@@ -330,6 +336,8 @@ var c17BaseShapes = []c17Shape{
 	{"slice2", 2, false, false, func(es []error) interface{} { return []error{es[0], es[1]} }, func(ns []string) string { return "[]error{" + ns[0] + ", " + ns[1] + "}" }},
 	{"array", 1, false, false, func(es []error) interface{} { return [1]error{es[0]} }, func(ns []string) string { return "[1]error{" + ns[0] + "}" }},
 	{"mapvalue", 1, false, false, func(es []error) interface{} { return map[SafeString]error{"k": es[0]} }, func(ns []string) string { return `map[SafeString]error{"k": ` + ns[0] + "}" }},
+	// a key that is not equal to itself cannot be looked up: the entry must still be printed with its value (seed C17-8)
+	{"nanmapvalue", 1, false, false, func(es []error) interface{} { return map[c17SafeFloat]error{c17SafeFloat(math.NaN()): es[0]} }, func(ns []string) string { return `map[c17SafeFloat]error{c17SafeFloat(math.NaN()): ` + ns[0] + "}" }},
 	{"mapkey", 1, false, false, func(es []error) interface{} { return map[error]SafeString{es[0]: "val"} }, func(ns []string) string { return `map[error]SafeString{` + ns[0] + `: "val"}` }},
 	{"struct2", 2, false, false, func(es []error) interface{} { return c17Hold2{es[0], es[1]} }, func(ns []string) string { return "c17Hold2{A: " + ns[0] + ", B: " + ns[1] + "}" }},
 	{"ptrslice", 1, false, true, func(es []error) interface{} { return &[]error{es[0]} }, func(ns []string) string { return "&[]error{" + ns[0] + "}" }},
